@@ -578,12 +578,30 @@ fn policy_case(case: u64, rng: &mut Rng, rep: &mut Report) {
     }
 }
 
+/// Forced schedule (shared, `tvmon::sched`): a merge of the previous writer generation ends after
+/// the successor has committed - nothing it still does may change what is published.
+fn stale_merge_case(case: u64, rng: &mut Rng, rep: &mut Report) {
+    rep.eval();
+    let dropped = rng.bool();
+    let out = tvmon::sched::stale_merge_schedule(rng, dropped);
+    for c in &out.counters {
+        rep.count(c, 1);
+    }
+    for (sig, d) in out.problems {
+        rep.violation(format!("stale-merge:{sig}"), json!({"case": case, "shape": out.shape, "detail": d}));
+    }
+    if out.forced {
+        rep.nontrivial(format!("stale-merge:{}", out.shape));
+    }
+}
+
 fn main() {
     let ctx = Ctx::from_env("C04", "translation_validation");
     let mut rep = run_cases(&ctx, "explicit", ctx.scale(300, 20000) as u64, explicit_case);
     rep.merge(run_cases(&ctx, "merge_indices", ctx.scale(60, 3000) as u64, merge_indices_case));
     rep.merge(run_cases(&ctx, "forced", ctx.scale(150, 8000) as u64, forced_case));
     rep.merge(run_cases(&ctx, "policy", ctx.scale(200, 10000) as u64, policy_case));
+    rep.merge(run_cases(&ctx, "stale-merge", ctx.scale(40, 2000) as u64, stale_merge_case));
     let programs = rep.counters.get("merges_validated").copied().unwrap_or(0)
         + rep.counters.get("merge_indices_validated").copied().unwrap_or(0);
     let dis = rep.counters.get("disagreements").copied().unwrap_or(0);
